@@ -58,9 +58,11 @@ struct payload {
 };
 inline auto just(int v) { return unifex::just(payload(v)); }
 // the callable table over payloads: the argument is taken by reference, the result is a fresh object
+inline int void_result = 0;   // what a void upon_error / upon_done callable computed (picked up by the then() on top)
 struct pfn {
   k2::fnobj f;
   payload operator()(const payload& p) const { return payload(f(p.v)); }
+  payload operator()() const { return payload(f(void_result)); }
 };
 template <typename S> auto thenf(S&& s, k2::fnobj f) { return unifex::then((S&&)s, pfn{f}); }
 template <typename S> auto voided(S&& s) { return unifex::then((S&&)s, [](const payload&) noexcept {}); }
@@ -69,6 +71,26 @@ template <typename S> auto uerr(S&& s, k2::fnobj f) {
 }
 template <typename S> auto udone(S&& s, k2::fnobj f) {
   return unifex::upon_done((S&&)s, [f]() { return payload(f(0)); });
+}
+// the other three branches of upon_error.hpp / upon_done.hpp: callable noexcept (_nx), returning void (_v; the value
+// is then produced by a then() on top: model term (then (add 0) (uerr f s))), or both
+template <typename S> auto uerr_nx(S&& s, k2::fnobj f) {
+  return unifex::upon_error((S&&)s, [f](std::exception_ptr e) noexcept { return payload(f(code_of(e))); });
+}
+template <typename S> auto udone_nx(S&& s, k2::fnobj f) {
+  return unifex::upon_done((S&&)s, [f]() noexcept { return payload(f(0)); });
+}
+template <typename S> auto uerr_v(S&& s, k2::fnobj f) {
+  return unifex::then(unifex::upon_error((S&&)s, [f](std::exception_ptr e) { void_result = f(code_of(e)); }), pfn{k2::fnobj{'a', 0, 0}});
+}
+template <typename S> auto udone_v(S&& s, k2::fnobj f) {
+  return unifex::then(unifex::upon_done((S&&)s, [f]() { void_result = f(0); }), pfn{k2::fnobj{'a', 0, 0}});
+}
+template <typename S> auto uerr_v_nx(S&& s, k2::fnobj f) {
+  return unifex::then(unifex::upon_error((S&&)s, [f](std::exception_ptr e) noexcept { void_result = f(code_of(e)); }), pfn{k2::fnobj{'a', 0, 0}});
+}
+template <typename S> auto udone_v_nx(S&& s, k2::fnobj f) {
+  return unifex::then(unifex::upon_done((S&&)s, [f]() noexcept { void_result = f(0); }), pfn{k2::fnobj{'a', 0, 0}});
 }
 struct mat_fold {
   payload operator()(unifex::tag_t<unifex::set_value>, const payload& p) const noexcept { return payload(3 * p.v); }
